@@ -71,22 +71,6 @@ SingleChanges(T) == InputChanges(T) \cup StructChanges(T)
 
 Target(c) == IF c.kind = "input" THEN <<c.slot[1], c.slot[2]>> ELSE <<c.obj, c.attr>>
 
-ApplyOne(T, c) ==
-    IF c.kind = "input" THEN T
-    ELSE IF c.attr = "usage_journey" THEN [T EXCEPT !.uj[c.obj] = c.new]
-    ELSE IF c.attr = "network" THEN [T EXCEPT !.net[c.obj] = c.new]
-    ELSE IF c.attr = "country" THEN [T EXCEPT !.country[c.obj] = c.new]
-    ELSE IF c.attr = "server" THEN [T EXCEPT !.server[c.obj] = c.new]
-    ELSE IF c.attr = "uj_steps" THEN [T EXCEPT !.stepsOf[c.obj] = c.new]
-    ELSE IF c.attr = "jobs" THEN [T EXCEPT !.jobsOf[c.obj] = c.new]
-    ELSE IF c.attr = "devices" THEN [T EXCEPT !.devs[c.obj] = c.new]
-    ELSE IF c.attr = "storage" THEN [T EXCEPT !.storage[c.obj] = c.new]
-    ELSE IF c.attr = "usage_patterns" THEN [T EXCEPT !.sysups = c.new]
-    ELSE Assert(FALSE, <<"unknown change", c>>)
-
-RECURSIVE ApplyAll(_, _, _)
-ApplyAll(T, cs, i) == IF i > Len(cs) THEN T ELSE ApplyAll(ApplyOne(T, cs[i]), cs, i + 1)
-
 (* mixed groups are where the two halves of the chain meet; input+input and struct+struct too *)
 GroupChanges(T) ==
     {<<a, b>> : a \in StructChanges(T), b \in InputChanges(T)} \cup
